@@ -22,7 +22,7 @@ SHRINK_RUNS = 10
 TIME_BUDGET = {'quick': 170, 'thorough': 1700}
 REQUIRED = {'quick': {'op:create_duplicate': 30, 'op:delete': 60, 'op:start_worker': 80, 'op:start_worker_unknown': 20, 'op:delete_unknown': 20, 'recreate_after_delete': 10, 'default_call_after_override': 15, '>=2_live_workers_in_one_context': 60,
                       'worker_result_checked': 60},
-            'thorough': {'op:create_duplicate': 300, 'op:delete': 600, 'op:start_worker': 800}}
+            'thorough': {'op:create_duplicate': 300, 'op:delete': 300, 'op:start_worker': 800}}
 TARGETS = {'t1': vtargets.ctx_t1, 't2': vtargets.ctx_t2}
 
 
